@@ -208,6 +208,21 @@ pub fn run(data: &[u8], ctx: &mut Ctx) -> Outcome {
         check!(ctx, u.to_cbor_data() == e.to_cbor_data() && u.is_identical_to(&e), "join", "C11/join/different-envelope", "join + unwrap is not identical to the original");
     }
 
+    // the other split forms: sskr_split (OS randomness) and sskr_split_flattened follow the same policy
+    {
+        let again = nopanic!(ctx, encrypted.sskr_split(&sskr_spec, &ck), "split", "C11/split/forms");
+        let again = tryp!(ctx, again.map_err(|x| x.to_string()), "split", "C11/split/forms");
+        check!(ctx, again.len() == groups.len() && again.iter().zip(groups.iter()).all(|(s, g)| s.len() == g.1), "split", "C11/split/forms", "sskr_split: share layout does not match the policy {}", policy);
+        let flat2 = nopanic!(ctx, encrypted.sskr_split_flattened(&sskr_spec, &ck), "split", "C11/split/forms");
+        let flat2 = tryp!(ctx, flat2.map_err(|x| x.to_string()), "split", "C11/split/forms");
+        check!(ctx, flat2.len() == n, "split", "C11/split/forms", "sskr_split_flattened returned {} share envelopes, the policy has {} members", flat2.len(), n);
+        for set in [again.iter().flatten().collect::<Vec<&Envelope>>(), flat2.iter().collect::<Vec<&Envelope>>()] {
+            let j = nopanic!(ctx, Envelope::sskr_join(&set), "split", "C11/split/forms");
+            let j = tryp!(ctx, j.map_err(|x| format!("all shares of a fresh split do not join: {}", x)), "split", "C11/split/forms");
+            check!(ctx, j.to_cbor_data() == expected_subject_bytes, "split", "C11/split/forms", "joining all shares of a fresh split does not return the original subject");
+        }
+    }
+
     // empty input
     let r = nopanic!(ctx, Envelope::sskr_join(&[]), "join", "C11/join");
     check!(ctx, r.is_err(), "join", "C11/join", "sskr_join of no shares succeeded");
